@@ -8,6 +8,7 @@ Assertions do not exist in the release configuration, so they cannot
 discharge anything. Declared assumptions (field invariants, external
 function ranges) are passed in by the property module and named in evidence."""
 import math
+import os
 import re
 from collections import deque
 
@@ -43,7 +44,7 @@ def meet(a, b):
 
 
 class Intervals:
-    def __init__(self, prog, field_ranges=None, call_ranges=None, nonzero_scan=True, max_depth=5):
+    def __init__(self, prog, field_ranges=None, call_ranges=None, nonzero_scan=True, max_depth=7):
         self.p = prog
         self.field_ranges = field_ranges or {}
         self.call_ranges = call_ranges or {}
@@ -253,7 +254,35 @@ class Intervals:
         # final recording pass
         for b in sorted(inb, reverse=True):
             run_block(b, inb[b], True)
+        if depth == 0:
+            # summary for the joined parameter intervals: what a call falls back to when the context depth is used up
+            self.__dict__.setdefault('top_ret', {})[fn.id] = ret[0]
         return ret[0], site_itv, inb
+
+    def _range_for_values(self, fn, d):
+        """the loop variable of `for (T x : {c1, c2, ...})`: hull of the listed constants, else None"""
+        init = strip_casts(kids(d)[0])
+        if init is None or init['k'] != 'UnaryOperator' or init.get('op') != '*':
+            return None
+        b = strip_casts(kids(init)[0])
+        if not ((b.get('ref') or {}).get('n') or '').startswith('__begin'):
+            return None
+        loop = next((a for a in fn.ancestors(d) if a['k'] == 'CXXForRangeStmt'), None)
+        if loop is None:
+            return None
+        rv = [x for x in walk(loop) if x['k'] == 'VarDecl' and (x.get('name') or '').startswith('__range') and kids(x)]
+        if not rv:
+            return None
+        lists = [x for x in walk(kids(rv[0])[0]) if x['k'] == 'InitListExpr']
+        if len(lists) != 1:
+            return None
+        vals = []
+        for el in kids(lists[0]):
+            c = const_of(strip_casts(el))
+            if c is None:
+                return None
+            vals.append(c)
+        return (min(vals), max(vals)) if vals else None
 
     # -- statements ------------------------------------------------------------------------------
     def exec_elem(self, fn, n, env, depth, site_itv, ret):
@@ -262,7 +291,9 @@ class Intervals:
             for d in kids(n):
                 if d['k'] == 'VarDecl':
                     if kids(d):
-                        v = self.eval(fn, kids(d)[0], env, depth, site_itv)
+                        v = self._range_for_values(fn, d)
+                        if v is None:
+                            v = self.eval(fn, kids(d)[0], env, depth, site_itv)
                         env[d['id']] = self.wrap(v, d) if v is not None else self.type_range(d)
                     else:
                         env[d['id']] = self.type_range(d)
@@ -577,9 +608,13 @@ class Intervals:
             return (0, 64)
         if nm in ('__builtin_clzll',):
             return (0, 63)
-        if c['fid'] in self.p.funcs and self.on_call is not None:
+        if c['fid'] in self.p.funcs and self.on_call is not None and depth == 0:
+            # arguments are recorded from the caller's own top-level analysis only: it runs with the join of that caller's
+            # parameters, so what it passes on covers every nested context, and is not blurred by the context depth limit
             g0 = self.p.funcs[c['fid']]
-            pv0 = vals[1:] if (e['k'] == 'CXXOperatorCallExpr' and g0.cls) else vals
+            pv0 = vals[1:] if (e['k'] == 'CXXOperatorCallExpr' and (g0.cls or len(vals) == len(g0.params) + 1)) else vals
+            if os.environ.get('DEBUG_ONCALL') and os.environ['DEBUG_ONCALL'] in g0.name:
+                print('on_call', fn.name, fn.targs, '->', g0.name, g0.targs, pv0, 'line', e.get('l'))
             self.on_call(g0, pv0)
         if c['fid'] in self.p.funcs and depth < self.max_depth:
             g = self.p.funcs[c['fid']]
@@ -592,8 +627,8 @@ class Intervals:
             outs = None
             try:
                 pv = vals
-                if e['k'] == 'CXXOperatorCallExpr' and g.cls:
-                    pv = vals[1:]
+                if e['k'] == 'CXXOperatorCallExpr' and (g.cls or len(vals) == len(g.params) + 1):
+                    pv = vals[1:]            # member operator / lambda call: the first operand is the object itself
                 r, _, ginb = self.analyse(g, pv, depth + 1)
                 xenv = ginb.get(g.cfg.exit)
                 if xenv is not None:
@@ -606,6 +641,17 @@ class Intervals:
             self.memo_out[key] = outs
             self._apply_outs(args, ptypes, outs, env)
             return r if r is not None else self.type_range(e)
+        if c['fid'] in self.p.funcs and c['fid'] in self.__dict__.get('top_ret', {}):
+            # context depth used up: the callee's result for the join of all its callers' arguments (which include these)
+            r = self.top_ret[c['fid']]
+            tr = self.type_range(e)
+            if r is not None:
+                r = self.wrap(r, e) if self.type_range(e, False) != TOP else r
+                if tr is not None and tr != TOP and r is not None:
+                    lo, hi = max(r[0], tr[0]), min(r[1], tr[1])
+                    return (lo, hi) if lo <= hi else tr
+                return r
+            return tr
         return self.type_range(e)
 
     def _apply_outs(self, args, ptypes, outs, env):
